@@ -3,8 +3,10 @@ CONSTANTS MaxPre = 1 MaxN = 3
   PreAlphabet <- AlphaSmall
   Accs <- AccsSmall
   Posts <- PostsSmall
-  Pairs = {TRUE}
+  FlowKinds = {"ctx"}
   Drivers = {"run", "fill", "split"}
+  Places = {"alone", "middle"}
+  CopyMode = "per_branch"
   Bufs <- BufQuick
 INVARIANT DriversAgree
 INVARIANT FillReaches
